@@ -642,6 +642,23 @@ func (e *Engine) Run(t *core.Tape, cfg *core.Config, st *core.Stats) *core.Viola
 		}
 		for j := range r.trace {
 			if r.trace[j] == r0.trace[j] {
+				// enforcement: a demand that certainly exceeds a configured limit must not succeed
+				if j < len(r0.sections) {
+					sec := r0.sections[j]
+					capFrames := c.o.CallStackSize
+					if c.o.MinimizeStackMemory {
+						capFrames = (capFrames + 7) / 8 * 8 // the auto-growing stack rounds up to a whole segment
+					}
+					if sec.frames > capFrames+2 {
+						return mk("limit-not-enforced", "demand %s needs %d call frames in one thread (measured under the reference configuration) but succeeded under CallStackSize %d", sec.id, sec.frames, c.o.CallStackSize)
+					}
+					if sec.top > regLimit+8 {
+						return mk("limit-not-enforced", "demand %s needs a registry top of %d in one thread (measured under the reference configuration) but succeeded under a registry limit of %d", sec.id, sec.top, regLimit)
+					}
+					if sec.frames > capFrames-8 || sec.top > regLimit-600 {
+						st.Probe("demand_just_below_a_limit")
+					}
+				}
 				continue
 			}
 			id := ""
